@@ -58,6 +58,31 @@ def desc_tokens(d, out):
         raise ValueError('cannot serialise descriptor %r of type %s' % (d, t.__name__))
 
 
+def show_desc(d):
+    """The compact form the driver's show_desc prints (model/drv_template.ml)."""
+    from pybufrkit import descriptors as D
+    t = type(d)
+    if t is D.UndefinedElementDescriptor:
+        return 'U%d' % d.id
+    if t is D.UndefinedSequenceDescriptor:
+        return 'V%d' % d.id
+    if isinstance(d, D.ElementDescriptor):
+        return 'E%d:%d:%d:%d' % (d.id, d.nbits, d.scale, d.refval)
+    if t is D.FixedReplicationDescriptor:
+        return 'F%d(%s)' % (d.id, show_descs(d.members))
+    if t is D.DelayedReplicationDescriptor:
+        return 'D%d[%s](%s)' % (d.id, show_desc(d.factor), show_descs(d.members))
+    if t is D.OperatorDescriptor:
+        return 'O%d' % d.id
+    if isinstance(d, D.SequenceDescriptor):
+        return 'S%d(%s)' % (d.id, show_descs(d.members))
+    return '?%s%d' % (t.__name__, d.id)
+
+
+def show_descs(ms):
+    return ','.join(show_desc(m) for m in ms)
+
+
 def template_tokens(template) -> str:
     out = ['(']
     for m in template.members:
